@@ -904,3 +904,10 @@ def edge_template_groups_of_single_edges(case):
     for (et, k), v in groups.items():
         by_t.setdefault(et, []).append(len(v))
     return any(len(v) >= 2 and min(v) == 1 for v in by_t.values())
+
+
+@predicate("F-18c")
+def condition_only_parameter_declared_before_a_field_parameter(case):
+    """auto-07p export with parameters that only the integral conditions use (the check itself relaxes the order
+    clause for them while the finding is active; nothing is excluded)"""
+    return False
